@@ -230,3 +230,9 @@ def run(ctx):
     for rr in ctx.rules:
         if rr.id.startswith("C04."):
             rr.id = "C13.R5"
+    # a device forwards through the raw sockets' message pumps: one dropped message must not stop them
+    from . import c11
+    ctx.guard(c11.rule_r9)
+    for rr in ctx.rules:
+        if rr.id == "C11.R9":
+            rr.id = "C13.R7"
